@@ -506,6 +506,36 @@ theorem counterexample_null_optional :
       (.dict [(.str "b", .int 5), (.str "t", .none)]) = true := by
   decide
 
+open Typedpy.CodeExact Typedpy.Sch in
+/-- finding `exact:accepts-invalid:extra`: with `additionalProperties: false` the Deserializer drops an
+    undeclared top-level key, the validator rejects the document -/
+theorem counterexample_extra_key_dropped :
+    (match deserialize O0 {} (schemaToClass CodeExact.rho0 "Foo"
+        (.obj [("p", .num true none none none false)] [] (some []) false))
+        (.dict [(.str "p", .int 1), (.str "zz", .int 1)]) with | .ok _ => true | .error _ => false) = true ∧
+    jsV R0 S0 (classSchema true (schemaToClass CodeExact.rho0 "Foo"
+        (.obj [("p", .num true none none none false)] [] (some []) false)))
+      (.dict [(.str "p", .int 1), (.str "zz", .int 1)]) = false := by decide
+
+open Typedpy.CodeExact Typedpy.Sch in
+/-- finding `exact:rejects-valid:unique:bool-vs-int`: `[[true], [1]]` is unique for draft 4, not for
+    Python's `==` -/
+theorem counterexample_unique_bool_vs_int :
+    jsV R0 S0 (emit true (schemaToDecl CodeExact.rho0 (.arrAny { uniq := true })))
+      (.list [.list [.bool true], .list [.int 1]]) = true ∧
+    acceptsB (schemaToDecl CodeExact.rho0 (.arrAny { uniq := true }))
+      (.list [.list [.bool true], .list [.int 1]]) = false := by decide
+
+/-- finding `exec:cyclic-ref`: for two definitions that refer to each other no emission order defines
+    every name before its use (the depth-first order emits `B` first, whose body names `A`) -/
+theorem counterexample_cyclic_refs :
+    topoOrder [("A", .obj [("x", .ref "B")] [] (some []) true), ("B", .obj [("y", .ref "A")] [] (some []) true)]
+      = ["B", "A"] ∧
+    refsOrdered [] [("A", .obj [("x", .ref "B")] [] (some []) true), ("B", .obj [("y", .ref "A")] [] (some []) true)]
+      = false ∧
+    refsOrdered [] [("B", .obj [("y", .ref "A")] [] (some []) true), ("A", .obj [("x", .ref "B")] [] (some []) true)]
+      = false := by decide
+
 theorem exactness_statement_false : ¬ exactness_statement := fun h =>
   absurd ((h (.num true none none none false) (.bool true) (by decide)).1 counterexample_bool_as_number.2)
     (by rw [counterexample_bool_as_number.1]; decide)
